@@ -15,14 +15,18 @@ structure BlockMode (σ : Type) where
   blocks  : σ → List Bytes → List Bytes × σ
   ivState : σ → Bytes
   oneshot : Option (σ → Bytes → Bytes)
+  /-- implementation layer only: the checked memory-level mirror of the one-shot call (`none` = panic) -/
+  oneshotMem : Option (σ → IOBuf → Option IOBuf) := none
   padEnc  : σ → Bytes → Bytes
   padDec  : σ → Bytes → Option Bytes
   debug   : String
 
 def mkImpl {σ : Type} (mbs : Nat) (init : Bytes → σ) (block : σ → Bytes → Bytes × σ)
-    (blocks : σ → List Bytes → List Bytes × σ) (ivState : σ → Bytes) (async : Bool) (dbg : String) : BlockMode σ :=
+    (blocks : σ → List Bytes → List Bytes × σ) (ivState : σ → Bytes) (async : Bool) (dbg : String)
+    (mem : Option (σ → IOBuf → Option IOBuf) := none) : BlockMode σ :=
   { mbs := mbs, init := init, block := block, blocks := blocks, ivState := ivState
     oneshot := if async then some (Glue.asyncInOut mbs blocks block) else none
+    oneshotMem := mem
     padEnc := Glue.paddedEnc mbs blocks block
     padDec := Glue.paddedDec mbs blocks
     debug := dbg }
@@ -39,10 +43,14 @@ def implBlockMode (C : Cipher) (w : Nat) (mode : String) : Option AnyBlockMode :
   | "pcbc-dec" => some ⟨_, mkImpl C.bs (Pcbc.init C) (Pcbc.decBlock C) (Pcbc.decBlocks C w) (Pcbc.ivState C) false "pcbc::Decryptor<Toy> { ... }"⟩
   | "ige-enc" => some ⟨_, mkImpl C.bs (Ige.init C) (Ige.encBlock C) (Ige.encBlocks C w) (Ige.ivState C) false "ige::Encryptor<Toy> { ... }"⟩
   | "ige-dec" => some ⟨_, mkImpl C.bs (Ige.init C) (Ige.decBlock C) (Ige.decBlocks C w) (Ige.ivState C) false "ige::Decryptor<Toy> { ... }"⟩
-  | "cfb-enc" => some ⟨_, mkImpl C.bs (Cfb.init C) (Cfb.encBlock C) (Cfb.encBlocks C w) (Cfb.ivState C) true "cfb::Encryptor<Toy> { ... }"⟩
-  | "cfb-dec" => some ⟨_, mkImpl C.bs (Cfb.init C) (Cfb.decBlock C) (Cfb.decBlocks C w) (Cfb.ivState C) true "cfb::Decryptor<Toy> { ... }"⟩
-  | "cfb8-enc" => some ⟨_, mkImpl 1 (Cfb8.init C) (Cfb8.encBlock C) (Cfb8.encBlocks C w) (Cfb8.ivState C) true "cfb8::Encryptor<Toy> { ... }"⟩
-  | "cfb8-dec" => some ⟨_, mkImpl 1 (Cfb8.init C) (Cfb8.decBlock C) (Cfb8.decBlocks C w) (Cfb8.ivState C) true "cfb8::Decryptor<Toy> { ... }"⟩
+  | "cfb-enc" => some ⟨_, mkImpl C.bs (Cfb.init C) (Cfb.encBlock C) (Cfb.encBlocks C w) (Cfb.ivState C) true "cfb::Encryptor<Toy> { ... }"
+      (some (MemAsync.asyncMem 1 C.bs (Cfb.encBlock C) (Glue.defaultPar (Cfb.encBlock C))))⟩
+  | "cfb-dec" => some ⟨_, mkImpl C.bs (Cfb.init C) (Cfb.decBlock C) (Cfb.decBlocks C w) (Cfb.ivState C) true "cfb::Decryptor<Toy> { ... }"
+      (some (MemAsync.asyncMem w C.bs (Cfb.decBlock C) (Cfb.decPar C)))⟩
+  | "cfb8-enc" => some ⟨_, mkImpl 1 (Cfb8.init C) (Cfb8.encBlock C) (Cfb8.encBlocks C w) (Cfb8.ivState C) true "cfb8::Encryptor<Toy> { ... }"
+      (some (MemAsync.asyncMem 1 1 (Cfb8.encBlock C) (Glue.defaultPar (Cfb8.encBlock C))))⟩
+  | "cfb8-dec" => some ⟨_, mkImpl 1 (Cfb8.init C) (Cfb8.decBlock C) (Cfb8.decBlocks C w) (Cfb8.ivState C) true "cfb8::Decryptor<Toy> { ... }"
+      (some (MemAsync.asyncMem 1 1 (Cfb8.decBlock C) (Glue.defaultPar (Cfb8.decBlock C))))⟩
   | "ofb-enc" => some ⟨_, mkImpl C.bs (Ofb.init C) (Ofb.encBlock C) (Ofb.encBlocks C w) (Ofb.ivState C) false "OfbCore<Toy> { ... }"⟩
   | "ofb-dec" => some ⟨_, mkImpl C.bs (Ofb.init C) (Ofb.decBlock C) (Ofb.decBlocks C w) (Ofb.ivState C) false "OfbCore<Toy> { ... }"⟩
   | _ => none
@@ -142,12 +150,24 @@ def blockMachine {σ : Type} (M : BlockMode σ) (iv : Bytes) (ivLen keyLen : Nat
         | none => (p, bad)
       | ["oneshot", x] =>
         match fromHex x, M.oneshot with
-        | some b, some f => (p, "out " ++ toHex (f s b))
+        | some b, some f =>
+          match M.oneshotMem with
+          | some fm =>                                   -- implementation layer: the memory-level mirror, in place
+            (match fm s (IOBuf.inplace b) with
+             | some io => (p, "out " ++ toHex io.out)
+             | none => (p, "panic"))
+          | none => (p, "out " ++ toHex (f s b))
         | _, _ => (p, bad)
       | ["oneshotb", x, g] =>
         match fromHex x, fromHex g, M.oneshot with
         | some b, some gb, some f =>
-          if b.length ≠ gb.length then (p, "err " ++ toHex gb) else (p, "out " ++ toHex (f s b))
+          if b.length ≠ gb.length then (p, "err " ++ toHex gb)
+          else match M.oneshotMem with
+            | some fm =>                                 -- … into the output buffer's actual previous contents
+              (match fm s (IOBuf.b2b b gb) with
+               | some io => (p, "out " ++ toHex io.out)
+               | none => (p, "panic"))
+            | none => (p, "out " ++ toHex (f s b))
         | _, _, _ => (p, bad)
       | ["ivstate"] => (p, "state " ++ toHex (M.ivState s))
       | ["reinit"] => (p.set (M.init (M.ivState s)), "ok")
